@@ -39,7 +39,8 @@ HARNESS = {"C10": "harness_pipe", "C11": "harness_pipe",
 
 
 SNAP_TB = ["hand-written Gallina model of pointindex.go / snap.go (Index/Model.v, Snap/Model.v): pixel addresses (x,y) instead of Morton keys (C17), exact Z products for cmpProducts (proved equal to the regenerated int64/uint64/bits.Mul64 source: C02_source_tie_lineIntersects), exact integer winding / Shoelace / RayIntersect (Nextafter nudge = infinitesimal), go-sortedmap / go-ordered-map micro-models, per-level decomposition proved equal to the interleaved loop (Snap/ProofsInterleaved.v); the correspondence runs snapPolygonFull (with the Morton-key limit, F11), proved equal to the plain model of the theorems for deepest level <= 32",
-           "tie G2: 13 leaf functions of pointindex.go/mathhelp.go regenerated into gen/PointIndexGen.v and proved equal to the model (Index/ProofsGen.v); cmpProducts, leavesRoomBelow, lineIntersects regenerated with machine-integer semantics into gen/LineGen.v and proved equal to the model for ordinates in [-2^62, 2^62) (Index/MachineInt.v, Index/ProofsGenLine.v); getQuadrantZs (gen/ChildrenGen.v, Bits/ProofsGenChildren.v) and kmpTable/kmpSearch/kmpSearchAll of snap.go (gen/KmpGen.v, Snap/ProofsGenKmp.v: equal to the model on all inputs, int as exact Z) likewise; cleanupNewVertices, asPointOrLine, ensureCorrectWindingOrder (gen/SnapSmallGen.v, Snap/ProofsGenSmall.v; windingOrderIsCorrect and ReverseClone modelled); kmpDeduplicate + mapslicehelp.RemoveSequences (gen/KmpDedupGen.v, Snap/ProofsGenKmpDedup.v: equal to the model for every ring; go-sortedmap New/Insert/Keys/Map, fmt.Sprint key, slices.Contains, copy, slices.Reverse, append onto the ring window kept as the micro-model's functions after an AST check); cleanupNewRing (gen/CleanupRingGen.v, Snap/ProofsGenCleanup.v; of splitRing only the classification/swap part is regenerated (gen/SplitTailGen.v, Snap/ProofsGenSplitTail.v), its stack walk remains hand-modelled); CLI glue facts in gen/CliGen.v",
+           "tie G2: 13 leaf functions of pointindex.go/mathhelp.go regenerated into gen/PointIndexGen.v and proved equal to the model (Index/ProofsGen.v); cmpProducts, leavesRoomBelow, lineIntersects regenerated with machine-integer semantics into gen/LineGen.v and proved equal to the model for ordinates in [-2^62, 2^62) (Index/MachineInt.v, Index/ProofsGenLine.v); getQuadrantZs (gen/ChildrenGen.v, Bits/ProofsGenChildren.v) and kmpTable/kmpSearch/kmpSearchAll of snap.go (gen/KmpGen.v, Snap/ProofsGenKmp.v: equal to the model on all inputs, int as exact Z) likewise; cleanupNewVertices, asPointOrLine, ensureCorrectWindingOrder (gen/SnapSmallGen.v, Snap/ProofsGenSmall.v; windingOrderIsCorrect and ReverseClone modelled); kmpDeduplicate + mapslicehelp.RemoveSequences (gen/KmpDedupGen.v, Snap/ProofsGenKmpDedup.v: equal to the model for every ring; go-sortedmap New/Insert/Keys/Map, fmt.Sprint key, slices.Contains, copy, slices.Reverse, append onto the ring window kept as the micro-model's functions after an AST check); cleanupNewRing (gen/CleanupRingGen.v, Snap/ProofsGenCleanup.v); the whole of splitRing incl. its ordered-map stack walk (gen/SplitWalkGen.v, Snap/ProofsGenSplitWalk.v: equal to the model for every ring; cleanupNewRing calls the regenerated one); dedupeInnersOuters with CountVals / DeleteFromSliceByIndex (gen/DedupeGen.v, Snap/ProofsGenDedupe.v), matchInnersToPolygons (gen/MatchGen.v, Snap/ProofsGenMatch.v) and the ring helpers ringsAreEqual, ringContains, sortPolyIdxsByOuterAreaDesc, outersToPolygons, reverseWindingOrderIfConfigured, FindLastKeyWithMaxValue, LastMatch, OrderedMapKeys, LastElement, ReverseClone (gen/RingHelpersGen.v, Snap/ProofsGenRingHelpers.v), each equal to the model on all inputs and outcomes; findIntersectingQuadrants (table AND loop), checkPointHits, snapClosestPoints (descent over Morton-keyed level maps, refinement key = toZ(x,y)) and insertCoord (gen/FindGen.v, HitsGen.v, DescentGen.v, Index/ProofsGenFind.v, ProofsGenHits.v, ProofsGenDescent.v). Kept as the micro-models functions after an AST check of the exact call shape (TRUSTED): go-ordered-map, go-sortedmap, builtin maps used as sets / association lists, slices.Index / Contains / Reverse, geomhelp.RayIntersect / Shoelace and winding.Order (float code: the exact integer versions), verticesHitMultiple as a predicate; slice aliasing through spare capacity is outside the translation. addPointsAndSnap, SnapPolygon, tileMatrixIDsByLevels, verticesHitMultiple (gen/SnapTopGen.v, Snap/ProofsGenSnapTop.v: the regenerated interleaved ring x level loop equals Snap/ModelInterleaved.v for every iteration order of every Go map, hence the per-level model). With these every function of snap.go and pointindex.go is regenerated from source on every run; what stays modelled there: the float predicates (exact integer versions), float64 as an abstract type with abstract operations in the index entry points, and the library micro-models; CLI glue facts in gen/CliGen.v",
+           "tie G2 (gen/IndexTopGen.v, Index/ProofsGenIndexTop.v, Index/GoTop.v): the exported entry points of pointindex.go (InsertPolygon, InsertPoint, InsertCoord, floorDiv, SnapClosestPoints, GetHitMultiple, FromTileMatrixSet) and intgeom's codec / accessors regenerated whole; trusted readings: float64 = abstract type with abstract operations (the theorems hold for every instance), int64 arithmetic with wrap-around, error values as option, methods that change maps of the pointer receiver return the final maps, the range over the per-level result map iterates in an order chosen by the caller (theorem for every permutation), go-spatial Polygon.LinearRings() = the polygon, tms20.TileMatrixSet = the view (tile widths, MatrixBoundingBox result)",
            "tie H: Go harness /verif/harness (generators, float<->integer centre mapping, projections); floats are outside the theorems (checked envelope: dyadic synthetic grids exactly; real grids and decimal tiny-unit grids on valid polygons)"]
 TRUSTED = {p: SNAP_TB for p in ("C01", "C02", "C03", "C04", "C05", "C06", "C07", "C08", "C09", "C18")}
 
